@@ -1,7 +1,8 @@
 (** C27/Props.v — property theorems only.  Each is closed by [exact] of a lemma of Proofs.v. *)
 From Coq Require Import List NArith Bool String.
 Import ListNotations.
-From EV Require Import Base.LTS Gen.C27_Notify C27.Model C27.Proofs.
+From EV Require Import Base.LTS Gen.C27_Notify Gen.C27_Sync C27.Model C27.Proofs.
+From EV Require C29.Model C29.Proofs.
 Local Open Scope N_scope.
 
 (** TABLE OBLIGATION (re-checked against today's dispatch_notification! lists): didOpen, didChange
@@ -63,6 +64,44 @@ Theorem spawned_open_refuted :
     last_of 1 ns LNone = LText 20 /\
     d_vfs (s_docs s) 1 = Some 10 /\ d_open (s_docs s) 1 = Some 10.
 Proof. exact Proofs.spawned_open_refuted. Qed.
+
+(** ------------------------------------------------------------------ across a workspace reload
+    [inline_in_order] treats every task other than the three document handlers as a non-writer of
+    document texts.  The one task that does write them is a workspace reload (it re-indexes the
+    workspace with a SNAPSHOT of the open documents and then re-applies what changed meanwhile, decided
+    by the open-documents version).  That interleaving is the LTS of C29/Model.v; the statement below is
+    its convergence theorem (C29/Proofs.reload_converges) instantiated with the bump rule read off
+    TODAY's source, so it — and this property's proof side — breaks when [sync_open_file] stops bumping
+    the version on every call.
+
+    TABLE OBLIGATION: sync_open_file / close_open_file bump the version unconditionally, and the
+    handler / reload section orders are the modelled ones. *)
+Theorem today_version_bumps :
+  sync_bumps_always = true /\ close_bumps_always = true /\ handler_sections_ok = true /\ reload_sections_ok = true.
+Proof. exact Proofs.today_version_bumps. Qed.
+
+(** For every disk, start state, list of document notifications, number of reload requests and EVERY
+    interleaving of the inline handlers' sections with the reload's sections: at quiescence the editor
+    texts are the message-order result and every open workspace document is analysed with the text of
+    its last notification (a closed one with its disk content, or not at all). *)
+Theorem last_text_wins_across_reload :
+  forall (disk : C29.Model.uri -> option C29.Model.text) (s0 s : C29.Model.st),
+    C29.Model.start disk s0 ->
+    C29.Model.reach disk sync_bumps_always s0 s ->
+    C29.Model.quiescent s ->
+    forall u,
+      C29.Model.wopen s u = C29.Model.editor (C29.Model.wopen s0) (C29.Model.queue s0) u /\
+      C29.Model.an s u = match C29.Model.wopen s u with Some t => Some t | None => disk u end.
+Proof. exact Proofs.last_text_wins_across_reload. Qed.
+
+(** With a version that is bumped only for documents that were not open before, an edit of an already
+    open document that lands between the reload's snapshot and its re-index is lost: quiescent, editor
+    text 2, analysed text 1. *)
+Theorem bump_only_new_refuted :
+  C29.Model.start C29.Proofs.no_disk C29.Proofs.stale_start /\
+  exists s, C29.Model.reach C29.Proofs.no_disk false C29.Proofs.stale_start s /\ C29.Model.quiescent s /\
+            C29.Model.wopen s 0%nat = Some 2%nat /\ C29.Model.an s 0%nat = Some 1%nat.
+Proof. exact Proofs.bump_only_new_refuted. Qed.
 
 (** non-vacuity: three documents, re-open after close, an empty change, spawned didSave tasks
     interleaved at arbitrary points; the run is quiescent and ends in message order *)
